@@ -25,6 +25,8 @@ class State:
         self.elem = {}    # local holding &a[pos]  -> pos term
         self.bools = {}   # bool local -> ('elem', pos, P) | ('cmp', op, a, b) | ('not', local)
         self.pending = {}  # tuple local -> (op, a, b)
+        self.guarded = set()   # (('le', a_term, b_term), fact): fact holds whenever a ≤ b
+        self.refto = {}        # local holding `&local` -> that local
         self.dead = False
 
     def copy(self):
@@ -32,6 +34,8 @@ class State:
         s.elem = dict(self.elem)
         s.bools = dict(self.bools)
         s.pending = dict(self.pending)
+        s.guarded = set(self.guarded)
+        s.refto = dict(self.refto)
         s.dead = self.dead
         return s
 
@@ -49,6 +53,32 @@ class State:
     def ne(self, a, b):
         return self.lt(a, b) or self.lt(b, a)
 
+    def promote(self):
+        """guarded facts whose guard is now entailed become facts"""
+        for g, f in list(self.guarded):
+            if self.le(g[1], g[2]):
+                self.guarded.discard((g, f))
+                if f[0] == "pt":
+                    self.add_pt(f[1], f[2])
+                else:
+                    self.facts.add(f)
+
+    def entails_guarded(self, g, f):
+        if self.d.bottom or self.lt(g[2], g[1]):
+            return True          # guard cannot hold
+        if (g, f) in self.guarded:
+            return True
+        # assume the guard: stored guarded facts whose own guard follows become facts
+        s2 = self.copy()
+        a, b_ = g[1], g[2]
+        s2.d.add(a[0], b_[0], b_[1] - a[1])
+        if s2.d.bottom:
+            return True
+        s2.promote()
+        if s2.dead or s2.d.bottom:
+            return True
+        return s2.holds_at(f[1], f[2]) if f[0] == "pt" else s2.covers(f[1], f[2], f[3])
+
     def holds_at(self, pos, P):
         """P(a[pos]) follows from the facts"""
         for f in self.facts:
@@ -58,23 +88,59 @@ class State:
                 return True
         return False
 
-    def covers(self, lo, hi, P):
-        """∀k ∈ [lo,hi): P(a[k]) follows from the facts (segments and points chained left to right)"""
+    def covers(self, lo, hi, P, depth=0):
+        """∀k ∈ [lo,hi): P(a[k]) follows from the facts (segments and points chained left to right);
+        undecided orderings between the cover front and a fact's bound are split into cases (bounded)"""
+        if self._covers(lo, hi, P):
+            return True
+        if depth >= 2 or self.d.bottom:
+            return False
+        # candidate split points: lower bounds of matching segments, guards
+        splits = []
+        for f in self.facts:
+            if f[0] == "seg" and (f[3] == P or P in IMPLIES.get(f[3], ())):
+                splits.append((f[1], lo))
+        for g, f in self.guarded:
+            splits.append((g[1], g[2]))
+        for (a, b) in splits:
+            if self.le(a, b) or self.lt(b, a):
+                continue
+            s1 = self.copy()
+            s1.d.add(a[0], b[0], b[1] - a[1])           # a ≤ b
+            s1.promote()
+            s2 = self.copy()
+            s2.d.add(b[0], a[0], a[1] - b[1] - 1)       # b < a
+            s2.promote()
+            ok1 = s1.d.bottom or s1.dead or s1.covers(lo, hi, P, depth + 1)
+            ok2 = s2.d.bottom or s2.dead or s2.covers(lo, hi, P, depth + 1)
+            if ok1 and ok2:
+                return True
+        return False
+
+    def _covers(self, lo, hi, P):
         if self.d.bottom or self.le(hi, lo):
             return True
         cover = lo
+        used = set()
         for _ in range(12):
             if self.le(hi, cover):
                 return True
             progressed = False
             for f in self.facts:
+                if f in used:
+                    continue
                 ok = lambda Q: Q == P or P in IMPLIES.get(Q, ())
-                if f[0] == "seg" and ok(f[3]) and self.le(f[1], cover) and self.lt(cover, f[2]):
-                    cover = f[2]
-                    progressed = True
-                    break
+                if f[0] == "seg" and ok(f[3]) and self.le(f[1], cover):
+                    if self.le(hi, f[2]):
+                        return True          # the rest of the target lies inside this (possibly empty) segment
+                    if self.le(cover, f[2]):
+                        cover = f[2]
+                        used.add(f)
+                        progressed = True
+                        break
                 if f[0] == "pt" and ok(f[2]) and self.eq(f[1], cover):
                     cover = tadd(f[1], 1)
+                    used.add(f)
                     progressed = True
                     break
             if not progressed:
@@ -98,6 +164,12 @@ class State:
             else:
                 nf.add(("pt", sh(f[1]), f[2]))
         self.facts = nf
+        ng = set()
+        for g, f in self.guarded:
+            g2 = (g[0], sh(g[1]), sh(g[2]))
+            f2 = ("seg", sh(f[1]), sh(f[2]), f[3]) if f[0] == "seg" else ("pt", sh(f[1]), f[2])
+            ng.add((g2, f2))
+        self.guarded = ng
         self.elem = {k: sh(t) for k, t in self.elem.items()}
         self.bools = {k: (("elem", sh(b[1]), b[2]) if b[0] == "elem" else b) for k, b in self.bools.items()}
 
@@ -126,11 +198,23 @@ class State:
                 if a is not None:
                     nf.add(("pt", a, f[2]))
         self.facts = nf
+        ng = set()
+        for g, f in self.guarded:
+            a, b_ = tr(g[1]), tr(g[2])
+            if a is None or b_ is None:
+                continue
+            if f[0] == "pt":
+                p_ = tr(f[1])
+                if p_ is not None:
+                    ng.add(((g[0], a, b_), ("pt", p_, f[2])))
+        self.guarded = ng
         self.elem = {k: tr(t) for k, t in self.elem.items() if tr(t) is not None}
         self.bools = {k: b for k, b in self.bools.items() if not (b[0] == "elem" and b[1][0] == v)}
 
     def swap(self, p, q):
         """a.swap(p, q) with p ≠ q known"""
+        self.promote()
+        self.guarded = set()
         nf = set()
         pts = []
         for f in self.facts:
@@ -164,7 +248,7 @@ class State:
 
 
 class SegmentAnalysis:
-    def __init__(self, body, zones, elem_pred, recv_is_array=None, pivot_local=None):
+    def __init__(self, body, zones, elem_pred, recv_is_array=None, pivot_local=None, on_call=None):
         """elem_pred(call terminator, arg exprs, analysis) → (element-ref local, predicate when the call returns true) or None"""
         self.b = body
         self.za = zones
@@ -173,6 +257,7 @@ class SegmentAnalysis:
         self.returns = body.exits()
         self.cuts = set(self.heads) | set(self.returns)
         self.int_locals = set(zones.int_locals)
+        self.on_call = on_call
         self.log = []
 
     def name(self, l):
@@ -282,6 +367,12 @@ class SegmentAnalysis:
                 st.elem[l] = st.elem[base]
             else:
                 st.elem.pop(l, None)
+            if rv["k"] == "ref" and not pl["p"]:
+                st.refto[l] = base
+            elif base in st.refto and all(p == "deref" for p in pl["p"]):
+                st.refto[l] = st.refto[base]
+            else:
+                st.refto.pop(l, None)
             st.bools.pop(l, None)
 
     def exec_call(self, st, bb, t):
@@ -308,8 +399,7 @@ class SegmentAnalysis:
             if st.eq(p, q):
                 return [st]
             if st.ne(p, q):
-                st.swap(p, q)
-                return [st]
+                return self.swap_split(st, p, q)
             # undecided aliasing: both cases
             s1 = st.copy()
             s1.d.add(p[0], q[0], q[1] - p[1])
@@ -322,9 +412,10 @@ class SegmentAnalysis:
                 else:
                     s2.d.add(q[0], p[0], p[1] - q[1] - 1)
                 if not s2.d.bottom:
-                    s2.swap(p, q)
-                    out.append(s2)
+                    out.extend(self.swap_split(s2, p, q))
             return out
+        if self.on_call is not None:
+            self.on_call(t, bb, self, st)
         # element predicates
         ep = self.elem_pred(t, bb, self, st)
         if ep is not None and not d["p"]:
@@ -357,6 +448,31 @@ class SegmentAnalysis:
                 st.facts = set()
         return [st]
 
+    def swap_split(self, st, p, q, depth=0):
+        """apply swap(p,q); point facts whose position is not comparable with p/q are first decided by case split"""
+        st.promote()
+        if depth < 3:
+            for f in st.facts:
+                if f[0] != "pt":
+                    continue
+                for x in (p, q):
+                    if not st.eq(f[1], x) and not st.ne(f[1], x):
+                        out = []
+                        a, b_ = f[1], x
+                        s_eq = st.copy()
+                        s_eq.d.add(a[0], b_[0], b_[1] - a[1])
+                        s_eq.d.add(b_[0], a[0], a[1] - b_[1])
+                        s_lt = st.copy()
+                        s_lt.d.add(a[0], b_[0], b_[1] - a[1] - 1)
+                        s_gt = st.copy()
+                        s_gt.d.add(b_[0], a[0], a[1] - b_[1] - 1)
+                        for s2 in (s_eq, s_lt, s_gt):
+                            if not s2.d.bottom:
+                                out.extend(self.swap_split(s2, p, q, depth + 1))
+                        return out
+        st.swap(p, q)
+        return [st]
+
     def exec_switch(self, st, bb, t, nxt):
         dsc = t["discr"]
         if dsc["k"] not in ("move", "copy") or dsc["pl"]["p"]:
@@ -374,6 +490,7 @@ class SegmentAnalysis:
             if info is None or truth is None:
                 return st
             self.assume(st, info, truth)
+            st.promote()
             return st
         if l in self.int_locals:
             x = self.name(l)
@@ -455,7 +572,10 @@ class SegmentAnalysis:
 
     def initial_state(self, cut, facts):
         d = self.za.states[cut].copy() if cut in self.za.states else DBM(self.za.vars)
-        return State(d, facts)
+        st = State(d, [f for f in facts if f[0] in ("seg", "pt")])
+        st.guarded = {(f[1], f[2]) for f in facts if f[0] == "if"}
+        st.promote()
+        return st
 
     def houdini(self, candidates_at, entry_facts=()):
         """candidates_at: {cut point: set of facts}.  Returns the inductive subset."""
@@ -475,7 +595,10 @@ class SegmentAnalysis:
                     states = self.run_path(path, self.initial_state(s, facts0))
                     for st in states:
                         for f in list(C[tgt]):
-                            ok = st.covers(f[1], f[2], f[3]) if f[0] == "seg" else st.holds_at(f[1], f[2])
+                            if f[0] == "if":
+                                ok = st.entails_guarded(f[1], f[2])
+                            else:
+                                ok = st.covers(f[1], f[2], f[3]) if f[0] == "seg" else st.holds_at(f[1], f[2])
                             if not ok:
                                 C[tgt].discard(f)
                                 changed = True
@@ -509,6 +632,8 @@ def show_term(t, sa):
 
 
 def show_fact(f, sa):
+    if f[0] == "if":
+        return "%s ≤ %s ⇒ %s" % (show_term(f[1][1], sa), show_term(f[1][2], sa), show_fact(f[2], sa))
     if f[0] == "seg":
         return "∀k∈[%s,%s): %s" % (show_term(f[1], sa), show_term(f[2], sa), f[3])
     return "%s(a[%s])" % (f[2], show_term(f[1], sa))
